@@ -167,14 +167,21 @@ def ob_zone_tree(h):
     labels = TREE_LABELS[kind]
     l0 = h.choice("label_of_first_stream", list(range(4)))
     l1 = h.choice("label_of_second_stream", list(range(4)))
-    given_as = h.choice("given_as", ["dictionary", "validated_model"])
+    given_as = h.choice("given_as", ["dictionary", "validated_model", "same_model_twice", "same_dictionary_of_validated_records_twice"])
     if l0 >= len(labels) or l1 >= len(labels):
         return
     with native():
         streams = [dict(zone=labels[l0], name="H1", t_supply=200.0, t_target=100.0, heat_flow=1000.0, dt_cont=5.0, htc=1.0),
                    dict(zone=labels[l1], name="C1", t_supply=50.0, t_target=180.0, heat_flow=1300.0, dt_cont=5.0, htc=1.0)]
         prob = {"streams": streams, "utilities": [], "options": {}, "zone_tree": TREES[kind]}
-        mk = (lambda: json.loads(json.dumps(prob))) if given_as == "dictionary" else (lambda: main.TargetInput.model_validate(json.loads(json.dumps(prob))))
+        if given_as == "dictionary":
+            mk = lambda: json.loads(json.dumps(prob))
+        elif given_as == "validated_model":
+            mk = lambda: main.TargetInput.model_validate(json.loads(json.dumps(prob)))
+        else:                                       # "is identical when the call is repeated": the very same request object, twice
+            m = main.TargetInput.model_validate(json.loads(json.dumps(prob)))
+            same = m if given_as == "same_model_twice" else {"streams": list(m.streams), "utilities": list(m.utilities), "options": m.options, "zone_tree": m.zone_tree}
+            mk = lambda: same
         out1 = main.pinch_analysis_service(mk(), project_name="Plant")
         out2 = main.pinch_analysis_service(mk(), project_name="Plant")
         j1 = out1.model_dump_json()
@@ -205,6 +212,6 @@ def obligations():
     obs += split(base, shape=list(SHAPES))
     obs.append(Obligation("C14.zone_tree.b", ob_zone_tree, kind="smallscope", functions=[main.pinch_analysis_service], max_paths=100000, time_budget_s=900,
                           bound=f"{len(TREES)} ways of writing a zone tree (root with no / null / empty children, flat, three generic levels) x stream labels naming zones of the tree x "
-                                "request given as dictionary / validated model (exhaustive)",
+                                "request given as dictionary / validated model / the same model or dictionary of validated records twice (exhaustive)",
                           doc="SERVICE output contract with the optional zone tree"))
     return obs
